@@ -180,9 +180,11 @@ def _snapshot():
 def _exposures(repo):
     out = []
 
-    def mk(relfile, modname, qual, clsname, params, post, note="", props=("C14",)):
+    def mk(relfile, modname, qual, clsname, params, post, note="", props=("C14",), extra=None):
         def model():
             m = GateModel(modname, relfile, clsname, repo=repo)
+            if extra:
+                extra(m)
             if "c_vhd" in m.cmods:  # read_footer(fh): used through its contract (returns the parsed c_vhd.footer, raises on a bad cookie)
                 m.globals["read_footer"] = FuncRef_("read_footer")
                 m.global_calls["read_footer"] = lambda eng, st, args, node: m.parse(eng, st, m.cmods["c_vhd"], m.cmods["c_vhd"].footer, args[0], node)
@@ -200,14 +202,41 @@ def _exposures(repo):
         v = a[0][0] if a[0] else a[1].get("size")
         return eng.as_int(v, st, None)
 
+    def vdi_model_extra(m):
+        # array.array("i") and its frombytes/fromstring: the block map object; contract: the array holds the int32 values of the bytes it is given
+        m.globals["array"] = ObjV("array_module")
+        def new_array(eng, st, args, node):
+            st.ghost["arrays_created"] = st.ghost.get("arrays_created", 0) + 1
+            st.ghost["map_typecode"] = args[0].s if len(args) == 1 and isinstance(args[0], StrV) else None  # an initialiser argument is not the file's map
+            return ObjV("block_map")
+
+        m.methods[("array_module", "array")] = new_array
+        m.truthy["block_map"] = z3.BoolVal(True)
+
+        def load(eng, st, args, node):
+            st.ghost["map_loads"] = st.ghost.get("map_loads", ()) + (args[0],)
+            return NoneV()
+
+        m.methods[("block_map", "frombytes")] = load
+        m.methods[("block_map", "fromstring")] = load
+        m.setitems = {"block_map": lambda eng, st, idx, v, node: st.ghost.__setitem__("map_stores", st.ghost.get("map_stores", 0) + 1)}
+
     def vdi_post(eng, st, rv):
         h = parsed(st, "HeaderDescriptor")
         g = lambda n: fld(eng, st, h, n).e  # noqa: E731
         a = lambda n: eng.as_int(st.attrs[f"self.{n}"], st, None)  # noqa: E731
-        return [("size_is_DiskSize", stream_size(eng, st) == g("DiskSize")), ("block_size_is_BlockSize", a("block_size") == g("BlockSize")), ("sector_size_is_SectorSize", a("sector_size") == g("SectorSize")),
+        mp = st.attrs.get("self.map")
+        loads = st.ghost.get("map_loads", ())
+        fsize, arr = eng.model.file("fh")
+        buf = loads[0] if len(loads) == 1 and isinstance(loads[0], BytesV) else None
+        map_goal = z3.BoolVal(False)
+        if isinstance(mp, ObjV) and mp.path == "block_map" and st.ghost.get("map_typecode") == "i" and st.ghost.get("arrays_created") == 1 and buf is not None and not st.ghost.get("map_stores"):
+            want_n = zmax(zmin(4 * g("BlocksInHDD"), fsize - g("BlocksOffset")), z3.IntVal(0))
+            map_goal = z3.And(buf.n == want_n, forall_k(buf.n, lambda k: buf.at(k) == arr(g("BlocksOffset") + k)))
+        return [("block_map_is_the_int32_array_of_the_4_times_BlocksInHDD_bytes_at_BlocksOffset_and_nothing_else", map_goal),("size_is_DiskSize", stream_size(eng, st) == g("DiskSize")), ("block_size_is_BlockSize", a("block_size") == g("BlockSize")), ("sector_size_is_SectorSize", a("sector_size") == g("SectorSize")),
                 ("data_offset_is_DataOffset", a("data_offset") == g("DataOffset"))]
 
-    out.append(mk(D + "vdi.py", "dissect.hypervisor.disk.vdi", "VDI.__init__", "VDI", lambda m: {"self": ObjV("self"), "fh": FileV("fh"), "parent": OpaqueV("parent")}, vdi_post, props=("C14", "C05")))
+    out.append(mk(D + "vdi.py", "dissect.hypervisor.disk.vdi", "VDI.__init__", "VDI", lambda m: {"self": ObjV("self"), "fh": FileV("fh"), "parent": OpaqueV("parent")}, vdi_post, props=("C14", "C05"), extra=vdi_model_extra))
 
     def hds_post(eng, st, rv):
         h = parsed(st, "pvd_header")
